@@ -1,5 +1,12 @@
 (* Extract/E_C02.v — wire entry for C02 (glue, not trusted for theorems).
    case   = [ver; how; lo; lu; ro; ru; lkeys; rkeys; lcols; rcols; lsuf; rsuf; cs; mcs; vf; ccs; kvs]
+          | the same 17 elements followed by  ext = [pre; chain]   (strengthening VC02, Model/MergeChain.v)
+            pre   = fields the destination holds before the call (columns as below)
+            chain = [] | [[dest_is_left; how2; lo2; lu2; ro2; ru2; key name; sel; other keys; other cols]]
+                    a second merge whose left (or right) frame is the destination of the first;
+                    sel = [] (left_fields=None: every field of that destination) | [[name; ...]]
+                    The specification of a chain is merge_spec of the second call applied to the modelled first
+                    destination (the first call is held to its own specification by the one-call cases).
             kvs  = per key column: 1 when the code under test casts both key columns of that pair to float64
                    before joining (pandas path, integer with float: Model/KeyView.v), 0 otherwise.  The MODEL
                    joins on the viewed keys; the SPECIFICATION always joins on the keys themselves.
@@ -13,7 +20,7 @@
    pandas.merge (the Section variable of the unordered path) is instantiated with the relational
    join of the specification; the harness compares unordered-path results up to row order. *)
 From Coq Require Import ZArith List Bool.
-From EV Require Import Res Arr Val Join MapStream Merge MergeSpec KeyView.
+From EV Require Import Res Arr Val Join MapStream Merge MergeSpec KeyView MergeChain.
 Import ListNotations.
 Open Scope Z_scope.
 
@@ -40,21 +47,77 @@ Definition enc_col (f:field) : val :=
   end.
 Definition enc_frame (f:frame) : val := VL (map enc_col f).
 
-Definition entry_C02 (v:val) : val :=
+Definition entry_one (v:list val) : option margs :=
   match v with
-  | VL [VZ ver; VZ how; lo; lu; ro; ru; lkeys; rkeys; lcols; rcols; lsuf; rsuf; VZ cs; VZ mcs; VZ vf; VZ ccs; kvs] =>
+  | [VZ ver; VZ how; lo; lu; ro; ru; lkeys; rkeys; lcols; rcols; lsuf; rsuf; VZ cs; VZ mcs; VZ vf; VZ ccs; kvs] =>
     match as_bool lo, as_bool lu, as_bool ro, as_bool ru, as_list kvs with
     | Some lo, Some lu, Some ro, Some ru, Some kvs =>
       match as_list2 lkeys, as_list2 rkeys, dec_frame lcols, dec_frame rcols, as_list lsuf, as_list rsuf with
       | Some lkeys, Some rkeys, Some lcols, Some rcols, Some lsuf, Some rsuf =>
-        let a := mk_margs (if ver =? 1 then MOrig else MFixed) how lo lu ro ru
-                          (view_keys kvs lkeys) (view_keys kvs rkeys) lcols rcols
-                          lsuf rsuf cs mcs vf ccs in
-        VL [ of_res (fun p => VL [vbool (fst p); enc_frame (snd p)]) (merge join_pairs a);
-             enc_frame (merge_spec how lkeys rkeys lcols rcols lsuf rsuf) ]
-      | _, _, _, _, _, _ => vbad
+        Some (mk_margs (if ver =? 1 then MOrig else MFixed) how lo lu ro ru
+                       (view_keys kvs lkeys) (view_keys kvs rkeys) lcols rcols
+                       lsuf rsuf cs mcs vf ccs)
+      | _, _, _, _, _, _ => None
       end
-    | _, _, _, _, _ => vbad
+    | _, _, _, _, _ => None
+    end
+  | _ => None
+  end.
+
+Definition dec_step2 (v:val) : option step2 :=
+  match v with
+  | VL [sl; VZ how; lo; lu; ro; ru; key; sel; okeys; ocols] =>
+    match as_bool sl, as_bool lo, as_bool lu, as_bool ro, as_bool ru, as_list key, as_list okeys, dec_frame ocols with
+    | Some sl, Some lo, Some lu, Some ro, Some ru, Some key, Some okeys, Some ocols =>
+      match sel with
+      | VL [] => Some (mk_step2 sl how lo lu ro ru key None okeys ocols)
+      | VL [ns] => match as_list2 ns with
+                   | Some ns => Some (mk_step2 sl how lo lu ro ru key (Some ns) okeys ocols)
+                   | None => None end
+      | _ => None
+      end
+    | _, _, _, _, _, _, _, _ => None
+    end
+  | _ => None
+  end.
+
+Definition enc_answer (r:res (bool * frame)) (spec:frame) : val :=
+  VL [ of_res (fun p => VL [vbool (fst p); enc_frame (snd p)]) r; enc_frame spec ].
+
+Definition spec_of (a:margs) (lkeys rkeys:list (list Z)) : frame :=
+  merge_spec (a_how a) lkeys rkeys (a_lcols a) (a_rcols a) (a_lsuf a) (a_rsuf a).
+
+Definition entry_C02 (v:val) : val :=
+  match v with
+  | VL [ver; VZ how; lo; lu; ro; ru; lkeys; rkeys; lcols; rcols; lsuf; rsuf; cs; mcs; vf; ccs; kvs] =>
+    match entry_one [ver; VZ how; lo; lu; ro; ru; lkeys; rkeys; lcols; rcols; lsuf; rsuf; cs; mcs; vf; ccs; kvs],
+          as_list2 lkeys, as_list2 rkeys with
+    | Some a, Some lk, Some rk => enc_answer (merge join_pairs a) (spec_of a lk rk)
+    | _, _, _ => vbad
+    end
+  | VL [ver; VZ how; lo; lu; ro; ru; lkeys; rkeys; lcols; rcols; lsuf; rsuf; cs; mcs; vf; ccs; kvs; VL [pre; VL ch]] =>
+    match entry_one [ver; VZ how; lo; lu; ro; ru; lkeys; rkeys; lcols; rcols; lsuf; rsuf; cs; mcs; vf; ccs; kvs],
+          as_list2 lkeys, as_list2 rkeys, dec_frame pre with
+    | Some a, Some lk, Some rk, Some pre =>
+      match ch with
+      | [] => enc_answer (merge_into join_pairs pre a) (pre ++ spec_of a lk rk)
+      | [s] =>
+        match dec_step2 s with
+        | None => vbad
+        | Some s =>
+          let spec2 := match merge_into join_pairs pre a with
+                       | Ok (_, d1) =>
+                         match chain_args a d1 s with
+                         | Some a2 => spec_of a2 (a_lkeys a2) (a_rkeys a2)
+                         | None => []
+                         end
+                       | _ => []
+                       end in
+          enc_answer (merge_chain join_pairs pre a s) spec2
+        end
+      | _ => vbad
+      end
+    | _, _, _, _ => vbad
     end
   | _ => vbad
   end.
